@@ -82,6 +82,7 @@ class Threader:
         self.n_thread = 0
         self.n_split = 0
         self.n_sroa = 0
+        self.n_devirt = 0
 
     def variant_index(self, adt, name):
         if (adt, name) in VARIANT_INDEX:
@@ -432,7 +433,10 @@ class Threader:
             cand = None
             for l, dbs in sorted(defs.items()):
                 ty = str(hm["locals"][l]["ty"])
-                if l in other_def or len(dbs) < 2 or len(set(dbs)) != len(dbs) or "&mut" not in ty or not (ty.startswith("&") or ty.startswith("(")):
+                is_fn_ptr = ty.startswith("fn(") or (ty.startswith("for<") and "> fn(" in ty[:80]) or ty.startswith("unsafe fn(")
+                if l in other_def or len(dbs) < 2 or len(set(dbs)) != len(dbs):
+                    continue
+                if not is_fn_ptr and ("&mut" not in ty or not (ty.startswith("&") or ty.startswith("("))):
                     continue
                 if l <= hm["arg_count"]:
                     continue
@@ -665,6 +669,52 @@ class Threader:
         self.n_sroa += n_done
         return n_done
 
+    def devirtualise(self, it):
+        """a call through a local whose only definition is a function item coerced to a function pointer
+        (`let k: fn(..) = f; k(x)`, also after the selected-reference pass gave each arm its own copy) is a direct call"""
+        hm = it["mir"]
+        n = 0
+        for b in hm["blocks"]:
+            if b.get("dead"):
+                continue
+            t = b["term"]
+            if t["k"] != "call":
+                continue
+            f = t.get("func") or {}
+            pl = f.get("place")
+            if not pl or pl["p"]:
+                continue
+            l = pl["l"]
+            const = None
+            for _ in range(4):
+                defs = []
+                for b2 in hm["blocks"]:
+                    if b2.get("dead"):
+                        continue
+                    for s2 in b2["stmts"]:
+                        if s2["k"] == "assign" and s2["lhs"]["l"] == l:
+                            defs.append(s2)
+                    if b2["term"]["k"] == "call" and b2["term"]["dest"]["l"] == l:
+                        defs.append(None)
+                if len(defs) != 1 or defs[0] is None or defs[0]["lhs"]["p"]:
+                    break
+                rv = defs[0]["rv"]
+                if rv["k"] in ("use", "cast") and rv.get("ops"):
+                    o = rv["ops"][0]
+                    if o.get("k") == "const" and "fn" in (o.get("c") or {}):
+                        const = o
+                        break
+                    if o.get("place") and not o["place"]["p"]:
+                        l = o["place"]["l"]
+                        continue
+                break
+            if const is not None:
+                t["func"] = copy.deepcopy(const)
+                t["devirtualised"] = True
+                n += 1
+        self.n_devirt += n
+        return n
+
     def _mark_dead(self, hm):
         blocks = hm["blocks"]
         seen = set()
@@ -726,8 +776,10 @@ class Threader:
                 self.split_selected_refs(it)
             if not os.environ.get("VERIF_NO_SROA"):
                 self.sroa(it)
+            self.devirtualise(it)
         self.facts["try_desugared"] = self.n_try
         self.facts["jumps_threaded"] = self.n_thread
         self.facts["selected_refs_split"] = self.n_split
         self.facts["tuples_replaced"] = self.n_sroa
+        self.facts["devirtualised_calls"] = self.n_devirt
         return self.facts
